@@ -71,6 +71,9 @@ class Glexsort(Contract):
         for name, fml in self.post(ctx, K, graded, reverse, rho):
             ctx.assume(fml)
         rho.sorted_keys = (K, graded, reverse)
+        hook = getattr(ex, "hooks", {}).get("after_glexsort")
+        if hook:
+            hook(ex, rho)
         return rho
 
 
